@@ -384,6 +384,21 @@ func (t *tstore) apply(m *mutant, orig []byte) {
 	} else {
 		t.verify(s, m, allIdx(len(t.plains)))
 		t.r.Note("tamper_outcomes", m.Target+"/"+cls+"/creation-succeeded")
+		// A flipped, truncated or extended meta blob cannot be told from the original by what is left
+		// of it: a start-up that succeeds over it has IGNORED the damage (a substitution by another
+		// valid blob is different: nothing marks it as damage).  Then nothing may be missing either.
+		if cls == "flip" || cls == "truncate" || cls == "extend" {
+			for i := range t.plains {
+				p := &t.plains[i]
+				got, _, ferr := fetchAll(s, p.Ref)
+				t.r.Eval(1)
+				if ferr != nil || !bytes.Equal(got, p.Data) {
+					t.r.Violation(t.sig(cls, "tamper-ignored", m),
+						fmt.Sprintf("after %s of meta blob %s (%s) a start with a lost index SUCCEEDED, yet Fetch(%s) fails (%v): the damage was neither reported nor harmless", cls, m.Name, m.Desc, p.Ref, ferr), m)
+					break
+				}
+			}
+		}
 	}
 	t.in.meta.clearOver(m.ref)
 }
